@@ -9,20 +9,24 @@ from vf.scen import Scenario, run_scenarios
 from harness import exprkit
 
 PROPERTY = 'C02'
-ENCODED = ['scinumtools.solver.solver:ExpressionSolver.__init__', 'scinumtools.solver.solver:ExpressionSolver.solve', 'scinumtools.solver.tokens:Tokens',
+ENCODED = ['scinumtools.solver.expression:Expression', 'scinumtools.solver.tokens:Tokens.operate', 'scinumtools.solver.solver:ExpressionSolver.__init__', 'scinumtools.solver.solver:ExpressionSolver.solve', 'scinumtools.solver.tokens:Tokens',
            'scinumtools.solver.operators:OperatorPar.__init__', 'scinumtools.solver.atom:AtomBase.__init__']
 EXPLANATION = ("Histories [e1, (e2,) probe] are run on ONE solver instance, where e1/e2 are well-formed or fail part-way (unknown atom at the j-th leaf, atom constructor raising, "
                "missing ')', missing operand, wrong arity); the probe is also solved on a fresh instance. All numeric leaves are solver variables; on every path z3 proves that the "
                "k-th call returns the same value term / raises the same exception type as the fresh instance. An AST frame check of solve() (regenerated each run) lists the "
-               "instance attributes it reads and writes and fails closed if state other than tokens/expr appears, which is what lets bounded histories stand for longer ones.")
+               "instance attributes it reads and writes and fails closed if state other than tokens/expr appears, which is what lets bounded histories stand for longer ones. "
+               "Character level (default configuration): the first text has free characters (symx.SymStr, printable non-letter ASCII) - any string up to the bound, any 3 characters before a probe, "
+               "or a well-formed text with one free character - the second text is free or a probe; the outcome of the second call on the used instance must equal the outcome on a fresh "
+               "instance (kind, error type, value) on every path. The fresh instance is the oracle, no reference evaluator is involved.")
 ASSUMPTIONS = [
     "name `float` in scinumtools.solver.atom is symx.Float (sentinel numerals map to solver variables)",
     "leaves are non-negative reals; division assumes a non-zero divisor",
+    "character level: same stubs and alphabet as C01 (names str/float of solver.solver and solver.atom; free characters are printable ASCII without letters and underscore); paths with non-finite concrete sub-expressions carry no claim",
     "frame: ExpressionSolver.solve only touches self.tokens / self.expr / self.operators / self.steps (checked on the AST each run); operators and steps are never written",
 ]
 OUTSIDE = ['histories longer than 3 calls (covered by the frame argument, not enumerated)', 'operators that keep state of their own in user subclasses']
-BOUNDS = {'quick': '5 solver configurations x 18 probes x fault kinds at every leaf position of 10 expressions, history length 2 and 3',
-          'thorough': 'same with 60 sampled 3-operator expressions as first/second call'}
+BOUNDS = {'quick': '5 solver configurations x 18 probes x fault kinds at every leaf position of 10 expressions, history length 2 and 3; character level: first text <= 2 free characters then 1 free character, any 3 characters then 3 probes, one free character in 6 rendered texts then a text with one free character',
+          'thorough': 'same with 60 sampled 3-operator expressions as first/second call; character level: first text <= 3 / second <= 2 free characters, 12 probes, 30 rendered texts'}
 EXHAUSTIVE = {'quick': False, 'thorough': False}
 PRE = "from scinumtools.solver import *\n" + exprkit.EXPR_SRC + '''
 def make_solver(cfg, v):
